@@ -11,11 +11,8 @@ import Gv.Oracle.SW
 import Gv.Oracle.Models
 import Gv.Oracle.Pool
 import Gv.Oracle.Dist
-import Gv.Oracle.Fmt
-import Gv.Oracle.Weights
-import Gv.Oracle.Det
 import Gv.Oracle.Loop
 /-! oracle with every handler (see `Gv/Oracle/Loop.lean`) -/
 open Gv Gv.Oracle
 
-def main : IO Unit := runOracle [SeqOps.handle, BagOps.handle, RandOps.handle, SitesOps.handle, CleanOps.handle, StatsOps.handle, DedupOps.handle, MaskOps.handle, SWOps.handle, Models.handle, PoolOps.handle, DistOps.handle, PureOps.handle, FmtOps.handle, WeightsOps.handle, DetOps.handle]
+def main : IO Unit := runOracle [SeqOps.handle, BagOps.handle, RandOps.handle, SitesOps.handle, CleanOps.handle, StatsOps.handle, DedupOps.handle, MaskOps.handle, SWOps.handle, Models.handle, PoolOps.handle, DistOps.handle, PureOps.handle, FmtOps.handle, WeightsOps.handle, DetOps.handle, ProtDistOps.handle]
